@@ -72,6 +72,34 @@ static VT: RawWakerVTable = RawWakerVTable::new(
     },
 );
 
+/// A caller's waker that keeps its state elsewhere: the data pointer is NULL (a global-flag
+/// waker, `Waker::noop`-style), every clone is the same pair of words.
+static NULL_COUNTERS: std::sync::atomic::AtomicPtr<Counters> = std::sync::atomic::AtomicPtr::new(std::ptr::null_mut());
+
+fn nullc() -> &'static Counters {
+    let c = unsafe { &*NULL_COUNTERS.load(SeqCst) };
+    c.touch();
+    c
+}
+
+static VT_NULL: RawWakerVTable = RawWakerVTable::new(
+    |_| {
+        nullc().clones.fetch_add(1, SeqCst);
+        RawWaker::new(std::ptr::null(), &VT_NULL)
+    },
+    |_| {
+        let c = nullc();
+        c.wakes.fetch_add(1, SeqCst);
+        c.drops.fetch_add(1, SeqCst);
+    },
+    |_| {
+        nullc().wakes.fetch_add(1, SeqCst);
+    },
+    |_| {
+        nullc().drops.fetch_add(1, SeqCst);
+    },
+);
+
 #[derive(Debug, Clone, Serialize, Deserialize, PartialEq)]
 pub enum WOp {
     /// clone waker i (0 = the waker handed to poll, when inside a poll)
@@ -100,6 +128,9 @@ pub struct Case {
     /// thread unwinds
     #[serde(default)]
     pub final_unwinding: bool,
+    /// the caller's waker has a null data pointer (its state lives in statics)
+    #[serde(default)]
+    pub null_data: bool,
 }
 
 #[derive(Default)]
@@ -299,7 +330,12 @@ fn body(case: &Case) -> Result<(usize, usize, usize, usize), Fail> {
     let counters: &'static Counters = verifkit::alloc::exempt(|| Box::leak(Box::new(Counters::default())));
     let shared = Arc::new(Mutex::new(Shared::default()));
     let script = Script { phases: case.phases.clone(), shared: shared.clone(), counters, poll_no: 0 };
-    let w0 = std::mem::ManuallyDrop::new(unsafe { Waker::from_raw(RawWaker::new(new_node(counters), &VT)) });
+    let w0 = std::mem::ManuallyDrop::new(if case.null_data {
+        NULL_COUNTERS.store(counters as *const Counters as *mut Counters, SeqCst);
+        unsafe { Waker::from_raw(RawWaker::new(std::ptr::null(), &VT_NULL)) }
+    } else {
+        unsafe { Waker::from_raw(RawWaker::new(new_node(counters), &VT)) }
+    });
     let mut cx = Context::from_waker(&w0);
 
     // one poller per kind, all through opaque cglue objects
@@ -444,8 +480,8 @@ fn wop() -> impl Strategy<Value = WOp> {
 pub fn strategy() -> impl Strategy<Value = Case> {
     let phase = (prop::collection::vec(wop(), 0..8), prop::collection::vec(wop(), 0..8), prop::bool::weighted(0.06))
         .prop_map(|(during, after, after_on_thread)| Phase { during, after, after_on_thread });
-    (0u8..3, prop::collection::vec(phase, 0..5), prop::collection::vec(any::<u16>(), 0..8), prop::bool::weighted(0.04), prop::bool::weighted(0.06))
-        .prop_map(|(via, phases, final_drop_order, final_on_thread, final_unwinding)| Case { via, phases, final_drop_order, final_on_thread, final_unwinding })
+    (0u8..3, prop::collection::vec(phase, 0..5), prop::collection::vec(any::<u16>(), 0..8), prop::bool::weighted(0.04), prop::bool::weighted(0.06), prop::bool::weighted(0.25))
+        .prop_map(|(via, phases, final_drop_order, final_on_thread, final_unwinding, null_data)| Case { via, phases, final_drop_order, final_on_thread, final_unwinding, null_data })
 }
 
 pub fn run(ctx: &Ctx) -> i32 {
